@@ -239,6 +239,10 @@ class Runner:
             return uid, uid + '|t', '4' + uid + '|t'
         if kind == 'json':
             return uid, {'id': uid}, '4{"id":"%s"}' % uid
+        if kind == 'float':
+            # a text payload that is a JSON float literal: delivered as float
+            val = float(s.n * 1000 + s.nup) + 0.25
+            return uid, val, '4' + repr(val)
         raw = uid.encode('ascii')
         return uid, raw, 'b' + base64.b64encode(raw).decode('ascii')
 
